@@ -601,6 +601,8 @@ class Interp:
             return ListMutator(self, v, name)
         if isinstance(v, (DictObj, dict)) and name in ("pop", "update", "setdefault", "popitem", "clear"):
             return DictMutator(self, v, name)
+        if isinstance(v, (DictObj, dict)) and name == "get" and not getattr(v, "__pyvc_symbolic__", False):
+            return DictGet(self, v)  # additive (C16): d.get(k, default) with a symbolic default / value is a plain read
         if isinstance(v, SAny) and not hasattr(type(v), name):
             # attribute of an opaque value: opaque
             return OpaqueAttr(v, name)
@@ -855,6 +857,13 @@ class Interp:
             for e, x in zip(t.elts[si + 1:], items[len(items) - after:] if after else []):
                 self.assign(e, x, fr)
         elif isinstance(t, (ast.Tuple, ast.List)):
+            if any(isinstance(x, ast.Starred) for x in t.elts) and hasattr(v, "pyvc_unpack_star"):
+                # additive (C16): `a, *rest = <theory sequence>`
+                star = [isinstance(x, ast.Starred) for x in t.elts].index(True)
+                vals = v.pyvc_unpack_star(self, star, len(t.elts) - star - 1)
+                for e2, x in zip(t.elts, vals):
+                    self.assign(e2.value if isinstance(e2, ast.Starred) else e2, x, fr)
+                return
             vals = self.unpack(v, len(t.elts))
             for e, x in zip(t.elts, vals):
                 self.assign(e, x, fr)
@@ -1553,6 +1562,8 @@ class Interp:
         if isinstance(f, ast.Name) and f.id == "super" and not e.args:
             return SuperProxy(fr.func.cls if fr.func.cls is not None else self._owner_cls(fr), self._self_of(fr))
         fn = self.eval(f, fr)
+        if fn is builtins.locals and not e.args and not e.keywords:
+            return DictObj(fr.locals)  # additive (C16): locals() is a snapshot dict of the frame's bound names
         args = self.eval_elts(e.args, fr)
         kwargs = {}
         for kw in e.keywords:
@@ -1645,6 +1656,11 @@ class Interp:
     def symbolic_comprehension(self, e, fr, sc):
         """[f(x) for x in symseq]  ->  a SymSeq of the same length with elementwise f (no filter)."""
         g = sc.gen
+        if sc.index == 0 and len(e.generators) == 1 and g.ifs and getattr(self, "comp_filter_hook", None) is not None:
+            # theory hook (additive, C16): a theory may give the filtered view of its own sequence type
+            r = self.comp_filter_hook(self, e, fr, g, sc.it)
+            if r is not None:
+                return r
         if sc.index != 0 or len(e.generators) != 1 or g.ifs:
             raise Unsupported("comprehension over symbolic sequence with filter / nesting")
         seq, mapper = self.symbolic_iter(sc.it)
@@ -1739,6 +1755,19 @@ class DictMutator:
                 return args[1]
             self.interp.raise_py(KeyError, k)
         return getattr(dict, self.op)(self.d, *args, **kw)
+
+
+class DictGet:
+    """d.get(key[, default]) on a python dict of the interpreted heap (concrete or heap-object keys)"""
+
+    def __init__(self, interp, d):
+        self.interp, self.d = interp, d
+        self.__pyvc_model__ = True
+
+    def __call__(self, k, default=None):
+        if not (is_concrete(k) or isinstance(k, Obj)):
+            raise Unsupported("dict.get with symbolic key")
+        return dict.get(self.d, k, default)
 
 
 def is_concrete_immutable(v):
